@@ -113,6 +113,67 @@ def setupAtoms (atoms : Tab AtomT) (c : Cls) (a : Nat) : Res :=
     ⟨ox, ox, ox⟩
   | .hSelfAcid => ⟨[a], bondedEl atoms a "H" ++ [a], [a]⟩
 
+/-! ### ligand groups (`is_ligand_group_by_groups`) -/
+/-- `'O.co2' in s` -/
+def hasOco2 (s : String) : Bool :=
+  let rec go : List Char → Bool
+    | 'O' :: '.' :: 'c' :: 'o' :: '2' :: _ => true
+    | _ :: r => go r
+    | [] => false
+  go s.toList
+
+/-- the branches of `is_ligand_group_by_groups`, one per SYBYL type -/
+def clsNar (hv : Nat) : Option String := if hv == 2 then some "NARGroup" else none
+def clsN3 (hv : Nat) : Option String :=
+  if hv == 0 then some "N30Group" else if hv == 1 then some "N31Group" else if hv == 2 then some "N32Group"
+  else if hv == 3 then some "N33Group" else none
+def clsNpl3 (atoms : Tab AtomT) (a : Nat) : Option String :=
+  match bondedEl atoms a "C" with
+  | [c] => if (bondedEl atoms c "N").length == 1 then some "NP1Group" else none
+  | _ => none
+def clsC2 (atoms : Tab AtomT) (sy : Nat → String) (a : Nat) : Option String :=
+  let ns := bondedEl atoms a "N"
+  let npls := ns.filter fun n => sy n == "N.pl3" && (bondedHeavy atoms n).length == 1
+  let two := ns.filter fun n => (bondedHeavy atoms n).length < 3
+  if npls.length == 2 && two.length == 2 then some "C2NGroup"
+  else if npls.length == 2 && ns.length == 3 then some "CGGroup"
+  else if ((bondedEl atoms a "O").filter fun o => hasOco2 (sy o)).length == 2 then some "OCOGroup"
+  else none
+def clsO3 (atoms : Tab AtomT) (a : Nat) (hv : Nat) : Option String :=
+  if hv == 1 then (if (bondedEl atoms a "P").length == 1 then some "OPGroup" else some "OHGroup") else some "O3Group"
+def clsS3 (hv : Nat) : Option String := if hv == 1 then some "SHGroup" else none
+
+/-- the SYBYL types the classifier distinguishes -/
+inductive SyKind | nar | nam | n3 | n1 | npl3 | c2 | f | cl | o3 | o2 | s3 | other
+  deriving DecidableEq, Repr
+
+def syKind (s : String) : SyKind :=
+  if s == "N.ar" then .nar else if s == "N.am" then .nam else if s == "N.3" || s == "N.4" then .n3 else if s == "N.1" then .n1
+  else if s == "N.pl3" then .npl3 else if s == "C.2" then .c2 else if s == "F" then .f else if s == "Cl" then .cl
+  else if s == "O.3" then .o3 else if s == "O.2" then .o2 else if s == "S.3" then .s3 else .other
+
+/-- the class of the group created for a hetero atom that is no ion, from the SYBYL types and the bonds (`sy` gives the SYBYL
+    type of an atom); `none`: no group -/
+def ligandClass (atoms : Tab AtomT) (sy : Nat → String) (a : Nat) : Option String :=
+  match syKind (sy a) with
+  | .nar => clsNar (bondedHeavy atoms a).length
+  | .nam => some "NAMGroup"
+  | .n3 => clsN3 (bondedHeavy atoms a).length
+  | .n1 => some "N1Group"
+  | .npl3 => clsNpl3 atoms a
+  | .c2 => clsC2 atoms sy a
+  | .f => some "FGroup"
+  | .cl => some "ClGroup"
+  | .o3 => clsO3 atoms a (bondedHeavy atoms a).length
+  | .o2 => some "O2Group"
+  | .s3 => clsS3 (bondedHeavy atoms a).length
+  | .other => none
+
+/-- every class the ligand classifier can name -/
+def ligandClassNames : List String :=
+  ["NARGroup", "NAMGroup", "N30Group", "N31Group", "N32Group", "N33Group", "N1Group", "NP1Group", "C2NGroup", "CGGroup", "OCOGroup",
+   "FGroup", "ClGroup", "OPGroup", "OHGroup", "O3Group", "O2Group", "SHGroup"]
+
 /-! ### covalent coupling (`find_covalently_coupled_groups`) -/
 /-- insertion-ordered set union, as `dict.update` on dicts used as ordered sets -/
 def ounion (a b : List Nat) : List Nat := b.foldl (fun acc x => if acc.contains x then acc else acc ++ [x]) a
